@@ -15,7 +15,7 @@ RULE = ("Histories of solve() calls on three long-lived instances (default AtomB
         "failing below nested parentheses. Oracle: a FRESH instance "
         "of the same configuration created for that call must give the same value, or both must raise the same "
         "exception type. Non-trivial: the history contains a failing solve with >=1 token already stored followed "
-        "Round 4: fresh-instance answers are taken BEFORE the history as well (process-wide state), numpy error handling must be what it was after every call, names ending in e next to a sign. "
+        "Round 5: calls made inside a with-block that the exception leaves; an atom type given as a factory function. Round 4: fresh-instance answers are taken BEFORE the history as well (process-wide state), numpy error handling must be what it was after every call, names ending in e next to a sign. "
         "later by an expression that succeeds on the fresh instance. Distinct = distinct case JSON.")
 ASSUMPTIONS = ["single-threaded histories", "exception messages are not compared (they embed token reprs), only the type"]
 NT_FLOOR = 0.15
@@ -130,7 +130,20 @@ def deep_fail(draw):
 lookup_tight = st.sampled_from(["rate+foo", "size+2", "2e-3*foo", "1.5e+2+bar", "rate+rate", "2*(size+1e-3)", "foo*2.5e-3+rate",
                                 "3*rate+size"]).map(lambda t: {"cfg": "lookup", "text": t, "fail": None})
 
-call = st.one_of(default_expr(), default_expr(), lookup_expr(), string_expr(), inplace_expr(), deep_fail(), lookup_tight)
+factory_calls = st.sampled_from(["-2.5", "1.5*-0.5", "-3", "2*-4", "2.5*4", "7/2", "1+2", "2.5*2.0", "3*(2+", "0.5+(1+)", "4+foo",
+                                 "2*(3+4)", "-1.5+2"]).map(lambda t: {"cfg": "factory", "text": t, "fail": None})
+
+
+@st.composite
+def _call(draw):
+    c = dict(draw(st.one_of(default_expr(), default_expr(), lookup_expr(), string_expr(), inplace_expr(), deep_fail(),
+                            lookup_tight, factory_calls)))
+    # the call may be made inside 'with solver:' (an exception then leaves the block before it is caught)
+    c["with"] = draw(st.integers(0, 3)) == 0
+    return c
+
+
+call = _call()
 
 
 @st.composite
@@ -186,6 +199,27 @@ def make(cfg):
         ops = {"par": OperatorPar, "mul": OperatorMul, "truediv": OperatorTruediv, "add": OperatorAdd}
         return ExpressionSolver(Atom, ops)
 
+    if cfg == "factory":
+        # the atom type given as a factory function that returns one of two classes (the package's own DIP and unit
+        # solvers pass factories)
+        class Whole(AtomBase):
+            def __init__(self, value):
+                self.value = int(value)
+
+            def __neg__(self):
+                return Whole(-self.value)
+
+        class Real(AtomBase):
+            def __init__(self, value):
+                self.value = float(value)
+
+            def __neg__(self):
+                return Real(-self.value)
+
+        def number(string):
+            string = str(string).strip()
+            return Whole(string) if string.lstrip("+-").isdigit() else Real(string)
+        return ExpressionSolver(number)
     if cfg == "inplace":
         # a legal custom atom whose operator accumulates into the left operand and returns it
         class Bag(AtomBase):
@@ -213,10 +247,14 @@ def make(cfg):
     return ExpressionSolver(AtomCustom, ops, steps)
 
 
-def outcome(solver, text):
+def outcome(solver, text, in_with=False):
     # no np.errstate wrapper here: a wrapper would silently undo a solver that leaves numpy's error handling changed
     try:
-        r = solver.solve(text)
+        if in_with:
+            with solver:                       # an exception leaves the with-block; the instance is used again later
+                r = solver.solve(text)
+        else:
+            r = solver.solve(text)
     except Exception as e:
         return ("raise", type(e).__name__)
     if r is None:
@@ -261,7 +299,7 @@ def _check(case, v, live, failed_before, nt, err0):
         cfg = c["cfg"]
         if cfg not in live:
             live[cfg] = make(cfg)
-        got = outcome(live[cfg], c["text"])
+        got = outcome(live[cfg], c["text"], in_with=bool(c.get("with")))
         if np.geterr() != err0:
             return v.fail("global-state", f"call {i} solve({c['text']!r}) left numpy's error handling at {np.geterr()} "
                                           f"(was {err0})")
